@@ -27,7 +27,7 @@ def gen_cases(ctx):
                     st = rot.pick((ind, "b"), ["walk", "segments", "gaps", "grid", "tinybars", "ulpbars"])
                     feeds = [("b", 0) + b for b in bar_stream(r, n, st, p=p)]
                 else:
-                    st = rot.pick((ind, "n"), ["walk", "ties", "periodic", "pgrid", "flatafter", "segments", "uniform", "tiny", "huge", "crash", "ulps"])
+                    st = rot.pick((ind, "n"), ["walk", "ties", "periodic", "pgrid", "flatafter", "segments", "uniform", "tiny", "huge", "crash", "ulps", "tight"])
                     feeds = [("n", 0, x) for x in scalar_stream(r, n, st, p=p, positive=True)]
                 if rep % 3 == 2:
                     feeds = sprinkle_serde(feeds, r)
